@@ -59,6 +59,11 @@ func ParseChunkSize(r network.Reader) (int, error) {
 				if c, err = r.ReadByte(); err != nil {
 					return -1, errors.NewPublic(fmt.Sprintf("cannot read '\r' char at the end of chunk size: %s", err))
 				}
+				// a line feed is no part of an extension: whoever ends lines at LF sees
+				// the chunk-size line end here, skipping it would move the chunk's data
+				if c == '\n' {
+					return -1, errors.NewPublic("unexpected '\n' char inside a chunk extension")
+				}
 			}
 		}
 		if c != '\r' {
